@@ -31,16 +31,17 @@ use rs_matter::Matter;
 use crate::proto::{Case, Out};
 use crate::simnet::addr_of;
 
-const FABRIC_ID: u64 = 1;
+pub const FABRIC_ID: u64 = 1;
 const ADMIN_NODE_ID: u64 = 100;
 const DEVICE_NODE_ID: u64 = 200;
-const GROUP_ID: u16 = 0x0101;
+pub const GROUP_ID: u16 = 0x0101;
 const KEY_SET_ID: u16 = 42;
-const EPOCH_KEY: [u8; AEAD_CANON_KEY_LEN] = [
+pub const EPOCH_KEY: [u8; AEAD_CANON_KEY_LEN] = [
     0xa0, 0xa1, 0xa2, 0xa3, 0xa4, 0xa5, 0xa6, 0xa7, 0xa8, 0xa9, 0xaa, 0xab, 0xac, 0xad, 0xae, 0xaf,
 ];
 
-fn provision<C: Crypto>(matter: &Matter<'_>, crypto: &C) -> Result<NonZeroU8, Error> {
+/// (also used by the C12 wire stream)
+pub fn provision<C: Crypto>(matter: &Matter<'_>, crypto: &C) -> Result<NonZeroU8, Error> {
     let mut rcac_buf = [0u8; MAX_CERT_TLV_AND_ASN1_LEN];
     let mut rcac_gen = RcacGenerator::new(&mut rcac_buf);
     let (rcac_privkey, rcac) = rcac_gen.generate(crypto, FABRIC_ID, VALID_FOREVER)?;
